@@ -14,7 +14,7 @@ BOUNDS = {
     'thorough': 'N=5 index; call sequences of length 6',
 }
 ASSUMPTIONS = ['years 1990..2040; calendar formulas validated against pandas.Timestamp on every day of that range in this run',
-               'on the last date without run_on_last_date, and on the first date, only the flag rule is required (the statement names them separately)']
+               'the first and the last date of the data are governed by their flags alone (fire iff the flag is set), as the statement names them separately']
 
 
 def period_changed(kind, a, b, run):
@@ -98,8 +98,7 @@ def h_period(run, cfg):
                     elif k == 1:
                         equal_truth(run, got, first, 'first-date-rule', det)
                     elif k == n - 1:
-                        if last:
-                            equal_truth(run, got, True, 'last-date-rule', det)
+                        equal_truth(run, got, last, 'last-date-rule', det)
                     else:
                         other = ds[k + 1] if eop else ds[k - 1]
                         equal_truth(run, got, period_changed(kind, ds[k], other, run), 'period-boundary', det)
@@ -141,10 +140,10 @@ def h_counting(run, cfg):
         for i in range(L):
             equal_truth(run, a(target_of(ds[i], None)), i == 0, 'runonce', 'call %d' % i)
     elif what == 'RunOnDate':
-        x, y = run.dayno('x'), run.dayno('y')
-        a = A.RunOnDate(x, y)
+        x, y, z = run.dayno('x'), run.dayno('y'), run.dayno('z')      # in any order, repeats allowed
+        a = A.RunOnDate(x, y, z)
         for i in range(L):
-            want = (ds[i] == x) | (ds[i] == y) if run.mode == 'sym' else (ds[i] == x or ds[i] == y)
+            want = (ds[i] == x) | (ds[i] == y) | (ds[i] == z) if run.mode == 'sym' else (ds[i] == x or ds[i] == y or ds[i] == z)
             equal_truth(run, a(target_of(ds[i], None)), want, 'runondate', 'call %d' % i)
     elif what == 'RunAfterDate':
         x = run.dayno('x')
